@@ -26,3 +26,118 @@ contract(M, 'dfa_words_up_to_n', {'D': 'DFA', 'n': 'Int'}, returns='Set[Word]',
                                                    'all(((q1, w1) in W1) == (%s or %s) for q1 in atoms() for w1 in allwords())' % (_SUCC_W, _SUCC_S),
                                                    'all((w in words) == (%s or %s or %s) for w in allwords())' % (_ACC_I, _NEW_W, _NEW_S)]}},
          theories=['word', 'dfa'], props=['C02', 'C19'])
+
+# ---------------------------------------------------------------------------------------------- C14
+contract(M, 'dfa_complement', {'D': 'DFA'}, returns='DFA', requires=['dfa_wf(D)'],
+         ensures=['dfa_wf(result)', 'result.Q == D.Q', 'result.Sigma == D.Sigma', 'result.q0 == D.q0', 'result.F == D.Q - D.F', 'result.delta == D.delta',
+                  'all(implies(over(D.Sigma, w), dfa_accepts(result, w) == (not dfa_accepts(D, w))) for w in allwords())'],
+         theories=['word', 'dfa'], props=['C14', 'C19', 'C12'])
+
+contract(M, 'fresh_state', {'Q': 'Set[State]', 'hint': 'Atom'}, returns='State', defaults={'hint': "'P'"},
+         requires=[], ensures=['result not in Q'], loops={1: {'invariant': ['index >= 1']}},
+         theories=['word', 'naming'], props=['C14', 'C10'], note='partial correctness (termination not proved: needs finiteness of Q)')
+
+_R_COMMON = ['V <= D.Q', 'discovered <= D.Q', 'V <= Reach(D, q)',
+             'implies(depth == 0, discovered <= Reach(D, q))', 'implies(depth != 0, discovered <= Reach1(D, q))',
+             'implies(depth != 0, V <= Reach1(D, q) | {q})',
+             'implies(depth == 0, q in discovered)',
+             'implies(depth != 0, q in V or all(D.delta[(q, a)] in discovered for a in D.Sigma))']
+contract(M, 'dfa_reachable_states', {'D': 'DFA', 'q': 'State', 'depth': 'Int'}, returns='Set[State]', defaults={'depth': '0'},
+         requires=['dfa_wf(D)', 'q in D.Q'],
+         ensures=['implies(depth == 0, result == Reach(D, q))', 'implies(depth != 0, result == Reach1(D, q))', 'result <= D.Q'],
+         types={'discovered': 'Set[State]', 'Vnext': 'Set[State]', 'V': 'Set[State]'},
+         loops={1: {'invariant': _R_COMMON + ['all(D.delta[(x, a)] in discovered for x in discovered - V for a in D.Sigma)'],
+                    'exit_hints': ['Reach_least(D, q, discovered)', 'Reach1_least(D, q, discovered)']},
+                2: {'ghost': 'donePairs', 'invariant': _R_COMMON + ['Vnext <= discovered', 'Vnext <= D.Q', 'Vnext <= Reach(D, q)',
+                                                                   'all(D.delta[(x, a)] in discovered for x in discovered - V - Vnext for a in D.Sigma)',
+                                                                   'all(D.delta[(u0, a0)] in discovered for (u0, a0) in donePairs)']}},
+         theories=['word', 'dfa'], props=['C14', 'C19'])
+
+contract(M, 'dfa_remove_unreachable_states', {'D': 'DFA'}, returns='DFA', requires=['dfa_wf(D)'],
+         ensures=['dfa_wf(result)', 'result.Q == Reach(D, D.q0)', 'result.Sigma == D.Sigma', 'result.q0 == D.q0', 'result.F == D.F & Reach(D, D.q0)',
+                  'all(result.delta[(x, a)] == D.delta[(x, a)] for x in Reach(D, D.q0) for a in D.Sigma)',
+                  'all(implies(over(D.Sigma, w), dfa_accepts(result, w) == dfa_accepts(D, w)) for w in allwords())'],
+         theories=['word', 'dfa'], props=['C14', 'C19'])
+
+contract(M, 'dfa_no_extend', {'D': 'DFA'}, returns='DFA', requires=['dfa_wf(D)'],
+         ensures=['dfa_wf(result)', 'result.Q == D.Q', 'result.Sigma == D.Sigma', 'result.q0 == D.q0', 'result.delta == D.delta',
+                  'all((x in result.F) == (x in D.F and (Reach1(D, x) & D.F) == set_empty()) for x in atoms())'],
+         theories=['word', 'dfa'], props=['C14', 'C19'],
+         note='structural contract: F\' = accepting states from which no accepting state is reachable by a non-empty path; the word-level reading is checked exactly by the bounded stand-in')
+
+contract(M, 'dfa_make_total_in_place', {'D': 'DFA'}, returns='None', modifies=['D'], requires=['dfa_pwf(D)'],
+         ensures=['dfa_wf(D)', 'D.Sigma == old(D.Sigma)', 'D.q0 == old(D.q0)', 'D.F == old(D.F)', 'old(D.Q) <= D.Q',
+                  'all(implies((x, a) in old(D.delta), D.delta[(x, a)] == old(D.delta)[(x, a)]) for x in atoms() for a in atoms())',
+                  'all(implies(x in old(D.Q) and a in D.Sigma and (x, a) not in old(D.delta), D.delta[(x, a)] not in old(D.Q)) for x in atoms() for a in atoms())',
+                  'all(implies(x in D.Q and x not in old(D.Q) and a in D.Sigma, D.delta[(x, a)] == x) for x in atoms() for a in atoms())',
+                  'all(implies(x in D.Q and x not in old(D.Q), x not in D.F) for x in atoms())'],
+         loops={1: {'ghost': 'doneQ', 'invariant': ['q_trap in Q', 'q_trap not in old(D.Q)', 'D.Q == old(D.Q) | {q_trap}', 'D.Sigma == old(D.Sigma)', 'D.q0 == old(D.q0)', 'D.F == old(D.F)',
+                                                  'all(implies((x, a) in old(D.delta), (x, a) in D.delta and D.delta[(x, a)] == old(D.delta)[(x, a)]) for x in atoms() for a in atoms())',
+                                                  'all(implies((x, a) in D.delta and (x, a) not in old(D.delta), D.delta[(x, a)] == q_trap and x in D.Q and a in D.Sigma) for x in atoms() for a in atoms())',
+                                                  'all((x, a) in D.delta for x in doneQ for a in D.Sigma)']},
+                2: {'ghost': 'doneS', 'invariant': ['q_trap in Q', 'q in Q', 'q_trap not in old(D.Q)', 'D.Q == old(D.Q) | {q_trap}', 'D.Sigma == old(D.Sigma)', 'D.q0 == old(D.q0)', 'D.F == old(D.F)',
+                                                  'all(implies((x, a) in old(D.delta), (x, a) in D.delta and D.delta[(x, a)] == old(D.delta)[(x, a)]) for x in atoms() for a in atoms())',
+                                                  'all(implies((x, a) in D.delta and (x, a) not in old(D.delta), D.delta[(x, a)] == q_trap and x in D.Q and a in D.Sigma) for x in atoms() for a in atoms())',
+                                                  'all((x, a) in D.delta for x in doneQ for a in D.Sigma)', 'all((q, a) in D.delta for a in doneS)']}},
+         theories=['naming'], props=['C14'])
+
+contract(M, 'dfa_make_total', {'D': 'DFA'}, returns='DFA', requires=['dfa_pwf(D)'],
+         ensures=['dfa_wf(result)', 'result.Sigma == D.Sigma', 'result.q0 == D.q0', 'result.F == D.F', 'D.Q <= result.Q',
+                  'all(implies((x, a) in D.delta, result.delta[(x, a)] == D.delta[(x, a)]) for x in atoms() for a in atoms())',
+                  'all(implies(x in D.Q and a in D.Sigma and (x, a) not in D.delta, result.delta[(x, a)] not in D.Q) for x in atoms() for a in atoms())',
+                  'all(implies(x in result.Q and x not in D.Q and a in D.Sigma, result.delta[(x, a)] == x) for x in atoms() for a in atoms())',
+                  'all(implies(x in result.Q and x not in D.Q, x not in result.F) for x in atoms())'],
+         theories=['naming'], props=['C14', 'C19'])
+
+_PT = "product_type == 'union' or product_type == 'intersection' or product_type == 'symmetric_difference'"
+_PF = ("implies(product_type == 'union', all((pair_name(x, y) in result.F) == (x in D1.F or y in D2.F) for x in D1.Q for y in D2.Q))",
+       "implies(product_type == 'intersection', all((pair_name(x, y) in result.F) == (x in D1.F and y in D2.F) for x in D1.Q for y in D2.Q))",
+       "implies(product_type == 'symmetric_difference', all((pair_name(x, y) in result.F) == ((x in D1.F) != (y in D2.F)) for x in D1.Q for y in D2.Q))")
+contract(M, 'dfa_product', {'D1': 'DFA', 'D2': 'DFA', 'product_type': 'Atom'}, returns='DFA',
+         requires=['dfa_wf(D1)', 'dfa_wf(D2)', 'D1.Sigma == D2.Sigma', _PT],
+         ensures=['dfa_wf(result)', 'result.Sigma == D1.Sigma', 'result.q0 == pair_name(D1.q0, D2.q0)',
+                  'all((z in result.Q) == any(z == pair_name(x, y) for x in D1.Q for y in D2.Q) for z in atoms())',
+                  'all(result.delta[(pair_name(x, y), a)] == pair_name(D1.delta[(x, a)], D2.delta[(y, a)]) for x in D1.Q for y in D2.Q for a in D1.Sigma)',
+                  'result.F <= result.Q'] + list(_PF),
+         pre_return_asserts=['all(pair_name(x, y) in Q for x in D1.Q for y in D2.Q)',
+                             'all(implies(z in Q, any(z == pair_name(x, y) for x in D1.Q for y in D2.Q)) for z in atoms())',
+                             'all((pair_name(x, y), a) in delta and delta[(pair_name(x, y), a)] == pair_name(D1.delta[(x, a)], D2.delta[(y, a)]) for x in D1.Q for y in D2.Q for a in D1.Sigma)',
+                             'all(implies((z, a) in delta, any(z == pair_name(x, y) for x in D1.Q for y in D2.Q) and a in D1.Sigma) for z in atoms() for a in atoms())',
+                             'all(implies((z, a) in delta, delta[(z, a)] in Q) for z in atoms() for a in atoms())'],
+         theories=['dfa', 'naming'], props=['C14', 'C19', 'C12'])
+
+for _name, _lit, _op in (('dfa_union', 'union', 'or'), ('dfa_intersection', 'intersection', 'and'), ('dfa_symmetric_difference', 'symmetric_difference', '!=')):
+    contract(M, _name, {'D1': 'DFA', 'D2': 'DFA'}, returns='DFA', requires=['dfa_wf(D1)', 'dfa_wf(D2)', 'D1.Sigma == D2.Sigma'],
+             ensures=['dfa_wf(result)', 'result.Sigma == D1.Sigma', 'prod_struct(D1, D2, result)', 'result.q0 == pair_name(D1.q0, D2.q0)',
+                      'all(implies(over(D1.Sigma, w), dfa_accepts(result, w) == (dfa_accepts(D1, w) %s dfa_accepts(D2, w))) for w in allwords())' % _op],
+             asserts=['all(implies(over(D1.Sigma, w), dhat(D1, D1.q0, w) in D1.Q and dhat(D2, D2.q0, w) in D2.Q) for w in allwords())',
+                      'all(implies(over(D1.Sigma, w), dhat(result, result.q0, w) == pair_name(dhat(D1, D1.q0, w), dhat(D2, D2.q0, w))) for w in allwords())'],
+             theories=['word', 'dfa', 'naming'], props=['C14', 'C19', 'C12'])
+
+contract(M, 'fresh_epsilon', {'Sigma': 'Set[Symbol]'}, returns='Symbol', ensures=['result not in Sigma'], verify=False,
+         theories=['word'], props=['C14'], note='generator over an infinite supply of characters (itertools.chain/count): outside the subset; assumed, bounded check in C14')
+
+_REV_INV = ['all((q in lookup(delta, (q1, a))) == ((q, a) in doneK and D.delta[(q, a)] == q1) for q in atoms() for q1 in atoms() for a in atoms())',
+            'all(implies((q1, a) in delta, any((q, a) in doneK and D.delta[(q, a)] == q1 for q in atoms())) for q1 in atoms() for a in atoms())',
+            'q0 not in D.Q', 'epsilon not in D.Sigma']
+contract(M, 'dfa_reverse', {'D': 'DFA'}, returns='NFA', requires=['dfa_wf(D)'],
+         ensures=['nfa_wf(result)', 'result.q0 not in D.Q', 'result.Q == D.Q | {result.q0}', 'result.Sigma == D.Sigma', 'result.F == {D.q0}', 'result.epsilon not in D.Sigma',
+                  'all((q in step(result, q1, a)) == (q in D.Q and D.delta[(q, a)] == q1) for q in atoms() for q1 in D.Q for a in D.Sigma)',
+                  'step(result, result.q0, result.epsilon) == D.F',
+                  'all(step(result, x, result.epsilon) == set_empty() for x in D.Q)',
+                  'all(step(result, result.q0, a) == set_empty() for a in D.Sigma)'],
+         types={'delta': 'Map[(State,Symbol),Set[State],default=set]'},
+         asserts=['all((q in lookup(result.delta, (q1, a))) == (q in D.Q and D.delta[(q, a)] == q1) for q in atoms() for q1 in D.Q for a in D.Sigma)'],
+         loops={1: {'ghost': 'doneK', 'invariant': _REV_INV}},
+         theories=['naming'], props=['C14', 'C19'],
+         note='structural contract (exact transition relation of the reversed automaton); L(result) = mirror image is checked exactly by the bounded stand-in')
+
+contract(M, 'dfa_no_prefix', {'D': 'DFA'}, returns='NFA', requires=['dfa_wf(D)'],
+         ensures=['nfa_wf(result)', 'result.q0 == D.q0', 'result.Q == D.Q', 'result.Sigma == D.Sigma', 'result.F == D.F', 'result.epsilon not in D.Sigma',
+                  'all((q1 in step(result, q, a)) == (q in D.Q and q not in D.F and a in D.Sigma and D.delta[(q, a)] == q1) for q in atoms() for q1 in atoms() for a in atoms())'],
+         types={'delta': 'Map[(State,Symbol),Set[State],default=set]'},
+         asserts=['all((q1 in lookup(result.delta, (q, a))) == (q in D.Q and q not in D.F and a in D.Sigma and D.delta[(q, a)] == q1) for q in atoms() for q1 in atoms() for a in atoms())'],
+         loops={1: {'ghost': 'doneK', 'invariant': ['all((q1 in lookup(delta, (q, a))) == ((q, a) in doneK and q not in D.F and D.delta[(q, a)] == q1) for q in atoms() for q1 in atoms() for a in atoms())',
+                                                  'all(implies((q, a) in delta, (q, a) in doneK) for q in atoms() for a in atoms())', 'epsilon not in D.Sigma']}},
+         theories=['naming'], props=['C14', 'C19'],
+         note='structural contract: transitions leaving accepting states are cut; the prefix-free reading is checked exactly by the bounded stand-in')
